@@ -120,12 +120,22 @@ func (s *scriptedRM) UnregisterResource(r rm.Resource) error {
 func (s *scriptedRM) GetCachedResources() *sync.Map    { return &s.res }
 func (s *scriptedRM) GetBranchType() branch.BranchType { return s.bt }
 
+type scriptedResource struct {
+	id string
+	bt branch.BranchType
+}
+
+func (r *scriptedResource) GetResourceGroupId() string       { return "default" }
+func (r *scriptedResource) GetResourceId() string            { return r.id }
+func (r *scriptedResource) GetBranchType() branch.BranchType { return r.bt }
+
 func init() {
 	// rm_script: register (or re-script) a recording manager for one branch type
 	register("rm_script", func(arg json.RawMessage) (interface{}, error) {
 		var a struct {
 			BranchType int        `json:"branch_type"`
 			Entries    []rmScript `json:"entries"`
+			Resources  []string   `json:"resources"` // resource ids this manager knows (GetCachedResources)
 		}
 		if err := json.Unmarshal(arg, &a); err != nil {
 			return nil, err
@@ -144,6 +154,9 @@ func init() {
 			s.script[e.BranchID] = &e
 		}
 		s.mu.Unlock()
+		for _, id := range a.Resources {
+			s.res.Store(id, &scriptedResource{id: id, bt: s.bt})
+		}
 		return nil, nil
 	})
 	register("rm_release", func(arg json.RawMessage) (interface{}, error) {
